@@ -30,6 +30,8 @@ def execute(spec, policy, seed):
     prof = Profile(VERSION)
     priv, der = c10.rsa_key(1024)
     run = Run(policy=policy, seed=seed, step_budget=60000)
+    run.grammar = not spec.get('early')     # early writers send play packets while the connection is still logging in: the
+    #                                         user's doing, judged by Trace_Writer only
     info = {}
     holder = {}
     thr, enc = spec.get('thr'), spec.get('enc')
